@@ -102,7 +102,7 @@ def translate(scn):
                 idmap[hid] = m
                 if tmo == "short":
                     short.append(m)
-                mops += pre + [f"OpStart {m}"] + post + ["OpSettle"]
+                mops += pre + [f"OpStartEager {m}" if kind == "inline" else f"OpStart {m}"] + post + ["OpSettle"]
             else:
                 expect_err.add(hid)
                 mops += pre + ["OpSettle"]
@@ -159,7 +159,7 @@ def gen_scenario(rng):
 
     def waiter(phase, allow_cause=False):
         tmo = rng.choice(["none", "none", "none", "short", "long"])
-        kinds = ["wait", "wait", "wait"]
+        kinds = ["wait", "wait", "inline", "inline"]
         if not join_used[0]:
             kinds.append("join")
         if phase == "during":
@@ -169,6 +169,7 @@ def gen_scenario(rng):
         kind = rng.choice(kinds)
         if kind == "join":
             join_used[0] = True
+        if kind in ("join", "inline"):
             tmo = "none"
         return ["w", kind, tmo, ""]
 
@@ -239,7 +240,7 @@ def exhaustive_small():
                         if p0 == ph:
                             r.append(["w", "wait", "none", ""])
                         if p1 == ph:
-                            r.append(["w", "wait", "long", ""])
+                            r.append(["w", "inline", "none", ""])
                         if pj == ph:
                             r.append(["w", "join", "none", ""])
                         return r
@@ -305,9 +306,10 @@ def run(chk):
         a = t["args"]
         sup = "true" if t["sup"] else "false"
         iobs, ists = show_term(it[1]), show_term(it[2])
+        last = it[2][-1] if it[2] else ("Starting" if "Starting" in a.split()[0] else "Running")
         exprs.append(f"(run_scenario {a}, scenario_statuses {a}, scenario_complete {a}, "
                      f"check_C06 (want_ps_of {t['mc']}) (want_sup_of {t['mc']} {sup}) (scenario_complete {a}) {iobs} "
-                     f"&& mono_stats 0%N {ists})")
+                     f"&& mono_stats 0%N {ists} && check_cleanup {it[3]}%N {last}, scenario_cleanups {a})")
     model = coq_eval("C06", IMPORTS, exprs, scope=None)
     model_t = [parse_term(x) for x in model]
 
@@ -316,8 +318,8 @@ def run(chk):
                  # the exhaustive part contains the minimal placements)
     for (src, scn), t, it, mt in zip(scns, tr, impl_t, model_t):
         chk.coverage["evaluations"] += 1
-        m_obs, m_sts, m_complete, oracle = mt[1], mt[2], mt[3], mt[4]
-        i_obs, i_sts = it[1], it[2]
+        m_obs, m_sts, m_complete, oracle, m_leaves = mt[1], mt[2], mt[3], mt[4], mt[5]
+        i_obs, i_sts, i_leaves = it[1], it[2], it[3]
         # map harness waiter ids to model indices; waiters whose send part failed are outside the model
         iv = {}
         errs = set()
@@ -341,18 +343,21 @@ def run(chk):
             distinct.add(json.dumps(scn, sort_keys=True))
         desc = json.dumps({"scenario": scn, "harness_line": t["line"], "model_args": t["args"],
                            "impl": show_term(it), "model_obs": show_term(m_obs),
-                           "model_statuses": show_term(m_sts), "complete": m_complete}, indent=1)
+                           "model_statuses": show_term(m_sts), "model_cleanups": m_leaves,
+                           "complete": m_complete}, indent=1)
         if oracle != "true":
             found.append((len(scn["ops"]), True,
                           "a wait returned before the actor had fully stopped, a waiter was never woken, "
-                          "or the status moved backwards",
+                          "the status moved backwards, or the exit cleanup did not run exactly once",
                           "C06 oracle check_C06 rejects the implementation's observations "
                           "(waiter outcomes with the snapshot taken at each return; OPending = still parked "
                           "at quiescence after the exit completed)\n" + desc))
-        elif iv != mv or i_sts != m_sts or errs != t["expect_err"]:
+        elif iv != mv or i_sts != m_sts or errs != t["expect_err"] or i_leaves != m_leaves:
             chk.coverage["disagreements_checked"] += 1
             what = ("waiter outcomes/snapshots" if iv != mv else
-                    "status after each operation" if i_sts != m_sts else "which *_and_wait calls fail to send")
+                    "status after each operation" if i_sts != m_sts else
+                    "number of cleanup executions (pg Leave notifications)" if i_leaves != m_leaves else
+                    "which *_and_wait calls fail to send")
             found.append((len(scn["ops"]), False, "model/implementation disagree: " + what,
                           f"correspondence E1:eng_wait view differs ({what}); the oracle accepts the implementation's run\n" + desc))
         if len(chk.coverage["samples"]) < 3 and src == "random" and n_before >= 3:
